@@ -51,20 +51,35 @@ SIGMA = z3.Function("sigma", z3.IntSort(), z3.RealSort())  # variable assignment
 
 
 class Gap:
-    """Unmaterialised ancestor segment between `lower` (top of the materialised chain) and the
-    child slot `side` of `upper`.  Its denotation is an uninterpreted function of the hole."""
+    """Unmaterialised ancestor segment between `lower` (top of a materialised chain) and the child
+    slot `side` of `upper`.  Its denotation is an uninterpreted function of the hole; an *additive*
+    gap consists of additions only (value = hole + k)."""
 
-    def __init__(self, heap, upper: Obj, side: str, lower: Obj):
+    def __init__(self, heap, upper: Obj, side: str, lower: Obj, like: "Gap" = None, additive=False):
         self.upper, self.side, self.lower = upper, side, lower
+        self.open = True
+        if like is not None:
+            # the same (unknown) ancestor segment inside a clone: same context functions
+            self.ctx, self.cdef, self.hasvar = like.ctx, like.cdef, like.hasvar
+            self.additive, self.addk, self.adddef, self.haskind = like.additive, like.addk, like.adddef, like.haskind
+            return
         n = heap.I.ps.next_sym = heap.I.ps.next_sym + 1
+        self.n = n
         self.ctx = z3.Function(f"ctx!{n}", z3.RealSort(), z3.RealSort())
         self.cdef = z3.Function(f"ctxdef!{n}", z3.RealSort(), z3.BoolSort())
         self.hasvar = z3.Function(f"ctxvar!{n}", z3.IntSort(), z3.BoolSort())
-        self.additive = z3.Bool(f"ctxadd!{n}")
+        self.additive = additive
         self.addk = z3.Real(f"ctxk!{n}")
+        self.adddef = z3.Bool(f"ctxkdef!{n}")
+        self.haskind = {}
+
+    def den(self, lv, ld):
+        if self.additive:
+            return lv + self.addk, z3.And(ld, self.adddef)
+        return self.ctx(lv), z3.And(ld, self.cdef(lv))
 
     def __repr__(self):
-        return f"<gap {self.upper}.{self.side} ~> {self.lower}>"
+        return f"<gap {self.upper}.{self.side} ~> {self.lower}{' additive' if self.additive else ''}>"
 
 
 class ExprHeap:
@@ -72,9 +87,8 @@ class ExprHeap:
         self.I = I
         I.heap = self
         self.nodes: List[Obj] = []  # all lazy/mirror expression nodes created on this path
-        self.top: Optional[Obj] = None  # top of the materialised ancestor chain of the input node
+        self.top: Optional[Obj] = None  # highest materialised ancestor of the input node without a gap above
         self.root: Optional[Obj] = None
-        self.gap: Optional[Gap] = None
         self.sessions = 0
         self.allow_np_constants = allow_np_constants
         self.find_type_cache: Dict[Any, Any] = {}
@@ -91,6 +105,14 @@ class ExprHeap:
     def _ghost(self, o: Obj):
         o.ghost = Ghost(o.oid)
         o.ghost["twins"] = [o]
+
+    def open_gaps(self):
+        out = []
+        for o in self.nodes:
+            gp = dict.get(o.ghost, "gap") if isinstance(o.ghost, dict) else None
+            if gp is not None and gp.open and o.mirror is None:
+                out.append(gp)
+        return out
 
     def kind_domains(self):
         """Domain constraints of the kind variables (kind sets are tracked outside the solver while
@@ -239,9 +261,9 @@ class ExprHeap:
         raise OutOfSubset(f"lazy field {name}")
 
     def _down(self, I, o: Obj, side) -> Obj:
-        """Materialise the child slot `side` of o (which may hold the gap)."""
-        gp = self.gap
-        if gp is not None and gp.upper is o and gp.side == side:
+        """Materialise the child slot `side` of o (which may hold a gap)."""
+        gp = o.ghost.get("gap")
+        if gp is not None and gp.open and gp.side == side:
             return self._read_gap(I, gp)
         kinds = NOEQ
         if side == "right" and o.kinds == frozenset(["FactorialExpression"]):
@@ -251,39 +273,58 @@ class ExprHeap:
         c.cur["parent"] = o
         return c
 
+    def _close(self, gp: Gap):
+        gp.open = False
+        if gp.lower.ghost.get("above") is gp:
+            gp.lower.ghost["above"] = None
+
     def _read_gap(self, I, gp: Gap) -> Obj:
         opt = I.ps.choose(3, "gap")
         lower = gp.lower
         if opt == 0:  # the slot holds the chain top directly
             I.refine_kinds(lower, lower.kinds & NOEQ)
+            self._exclude_parent_kinds(I, lower, gp.upper)
             lower.init["parent"] = gp.upper
             if "parent" not in lower.cur:
                 lower.cur["parent"] = gp.upper
-            self.gap = None
-            self.top = gp.upper
+            self._close(gp)
             return lower
         side = "left" if opt == 1 else "right"
-        kinds = frozenset(BINARY) - {"EqualExpression"} if side == "left" else NONLEAF - {"EqualExpression"}
+        if gp.additive:
+            kinds = frozenset(["AddExpression"])
+        else:
+            kinds = frozenset(BINARY) - {"EqualExpression"} if side == "left" else NONLEAF - {"EqualExpression"}
         s = self.new_input(kinds, label="anc")
         s.init["parent"] = gp.upper
         s.cur["parent"] = gp.upper
-        if side == "right":
-            pass
-        ng = Gap(self, s, side, lower)
-        self.gap = ng
+        self._exclude_parent_kinds(I, lower, s)
+        ng = Gap(self, s, side, lower, additive=gp.additive)
+        gp.open = False
+        lower.ghost["above"] = ng
         s.ghost["gap"] = ng
         return s
 
+    def _exclude_parent_kinds(self, I, child: Obj, parent: Obj):
+        """Maximality constraint left by an ancestor-walk summary: child's parent is not of these kinds."""
+        no = child.ghost.get("parent_not")
+        if no:
+            I.refine_kinds(parent, parent.kinds - frozenset(no))
+
     def _up(self, I, o: Obj):
-        """Materialise the parent of the top of the chain."""
-        assert o is self.top or self.top is None or True
+        """Materialise the parent of a node whose parent slot is unread."""
         if self.root is o:
             return None
+        gp = o.ghost.get("above")
+        if gp is not None and not gp.open:
+            gp = None
+        no = frozenset(o.ghost.get("parent_not") or ())
         opts = []
-        if self.root is None:
-            opts.append("none")
+        if gp is None:
+            if self.root is None:
+                opts.append("none")
         else:
-            opts.append("alias")
+            if gp.upper.kinds - no:
+                opts.append("alias")
         can_child = o.kinds & NOEQ
         if can_child:
             opts += ["pleft", "pright"]
@@ -293,52 +334,68 @@ class ExprHeap:
             return None
         I.refine_kinds(o, can_child)
         if c == "alias":
-            gp = self.gap
+            I.refine_kinds(gp.upper, gp.upper.kinds - no)
             gp.upper.init[gp.side] = o
             if gp.side not in gp.upper.cur:
                 gp.upper.cur[gp.side] = o
-            self.gap = None
-            self.top = gp.upper
+            self._close(gp)
             return gp.upper
         side = "left" if c == "pleft" else "right"
-        if self.root is None:
-            kinds = frozenset(BINARY) if side == "left" else NONLEAF
-        else:
-            kinds = (frozenset(BINARY) if side == "left" else NONLEAF) - {"EqualExpression"}
+        kinds = frozenset(BINARY) if side == "left" else NONLEAF
+        if gp is not None or self.root is not None:
+            kinds = kinds - {"EqualExpression"}
+        if gp is not None and gp.additive:
+            kinds = frozenset(["AddExpression"])
+        kinds = kinds - no
+        if not kinds:
+            raise PathAbort()
         p = self.new_input(kinds, label="par")
         p.init[side] = o
         p.cur[side] = o
-        if side == "right" and False:
-            pass
+        if gp is not None:
+            gp.lower = p
+            p.ghost["above"] = gp
+            o.ghost["above"] = None
         if self.top is o:
             self.top = p
-        if self.gap is not None and self.gap.lower is o:
-            self.gap.lower = p
         return p
 
-    # ------------------------------------------------------------------ get_root / get_root_side
-    def chain_top(self, I, o: Obj):
-        """Follow current parent links as far as they are materialised."""
+    # ------------------------------------------------------------------ ancestor walks
+    def climb(self, I, o: Obj):
+        """Follow current parent links and open gaps upward as far as they are known.
+        Returns (top, via): via is the Gap or the child object through which top was entered."""
         seen = set()
-        last_child = None
+        via = None
         while True:
             if id(o) in seen:
                 raise OutOfSubset("parent cycle while walking to the root")
             seen.add(id(o))
-            if "parent" in o.cur:
-                p = o.cur["parent"]
+            if "parent" in o.cur or "parent" in o.init:
+                # (a field materialised through a clone is in init only: never written, so current)
+                p = o.cur["parent"] if "parent" in o.cur else o.init["parent"]
                 if p is None:
-                    return o, last_child, True
-                last_child, o = o, p
+                    return o, via, True
+                via, o = o, p
                 continue
-            if o.mirror is not None or o.lazy:
-                return o, last_child, False
-            return o, last_child, True  # fresh object without parent field: cannot happen
+            if o.mirror is not None:
+                return o, via, False
+            gp = o.ghost.get("above")
+            if gp is not None and gp.open:
+                via, o = gp, gp.upper
+                continue
+            if o.lazy:
+                return o, via, False
+            return o, via, True  # program-built node without a parent field: cannot happen
+
+    def chain_top(self, I, o: Obj):
+        t, via, done = self.climb(I, o)
+        return t, (via if isinstance(via, Obj) else None), done
 
     def declare_root(self, I, t: Obj) -> Obj:
         """t is the unread top of the input chain: decide what its root is."""
         if self.root is not None:
             return self.root
+        no = frozenset(t.ghost.get("parent_not") or ())
         opts = ["self"]
         if t.kinds & NOEQ:
             opts += ["rleft", "rright"]
@@ -348,19 +405,21 @@ class ExprHeap:
             t.cur["parent"] = None
             self.root = t
             return t
+        I.refine_kinds(t, t.kinds & NOEQ)
         side = "left" if c == "rleft" else "right"
         kinds = frozenset(BINARY) if side == "left" else NONLEAF
         r = self.new_input(kinds, label="root")
         r.init["parent"] = None
         r.cur["parent"] = None
         self.root = r
-        self.gap = Gap(self, r, side, t)
-        r.ghost["gap"] = self.gap
+        g = Gap(self, r, side, t)
+        r.ghost["gap"] = g
+        t.ghost["above"] = g
         return r
 
     def c_get_root(self, I, args, kwargs, f):
         (o,) = args
-        t, _, done = self.chain_top(I, o)
+        t, _, done = self.climb(I, o)
         if done:
             return t
         if t.mirror is not None:
@@ -371,33 +430,74 @@ class ExprHeap:
 
     def c_get_root_side(self, I, args, kwargs, f):
         (o,) = args
-        t, last_child, done = self.chain_top(I, o)
+        t, via, done = self.climb(I, o)
         if not done:
             if t.mirror is not None:
+                # answer in the original tree (the copy is isomorphic)
                 sess, orig = t.mirror
-                r = self.mirror_of(I, sess, self.c_get_root(I, [orig], {}, f))
-            else:
-                r = self.declare_root(I, t)
-            if r is t:
-                done = True
-            else:
-                # the chain below r: which side?
-                gp = self._gap_for(r)
-                if gp is not None:
-                    return gp.side
-                # gap closed meanwhile: walk again
-                t, last_child, done = self.chain_top(I, o)
-        # root reached concretely: result.get_side(last_child) as in the code
+                base = o
+                while base.mirror is not None:
+                    base = base.mirror[1]
+                return self.c_get_root_side(I, [base], {}, f)
+            self.declare_root(I, t)
+            t, via, done = self.climb(I, o)
         root = t
-        return I.call_method(root, "get_side", [last_child], {})
+        if isinstance(via, Gap):
+            return via.side
+        # root reached concretely: result.get_side(last_child) as in the code
+        return I.call_method(root, "get_side", [via], {})
 
-    def _gap_for(self, r: Obj):
-        if r.mirror is not None:
-            sess, orig = r.mirror
-            return self._gap_for(orig)
-        if self.gap is not None and self.root is r:
-            return self.gap
-        return None
+    def summarise_ancestor_walk(self, I, x: Obj, ci) -> Obj:
+        """Summary of `while isinstance(v.parent, K): v = v.parent` started at v = x:
+        the highest ancestor-or-self of x reachable through parents that are all instances of K."""
+        K = I.kinds_subclassing(frozenset(ALL12), ci)
+        additive_kind = K == frozenset(["AddExpression"])
+        cur = x
+        guard = 0
+        while True:
+            guard += 1
+            if guard > 64:
+                raise OutOfSubset("ancestor walk did not stabilise")
+            if "parent" in cur.cur or "parent" in cur.init:
+                p = cur.cur["parent"] if "parent" in cur.cur else cur.init["parent"]
+                if isinstance(p, Obj) and I.isinstance_(p, ci) is True:
+                    cur = p
+                    continue
+                return cur
+            if cur.mirror is not None:
+                raise OutOfSubset("ancestor walk inside a clone with unread parent")
+            gp = cur.ghost.get("above")
+            if gp is not None and gp.open and gp.additive and additive_kind:
+                cur = gp.upper  # everything in between is an addition
+                continue
+            c = I.ps.choose(2, "walk")
+            if c == 0:
+                # the walk ends here: the parent (whatever it is) is not a K
+                p = I.getattr(cur, "parent")
+                if isinstance(p, Obj):
+                    if I.isinstance_(p, ci) is not False:
+                        raise PathAbort()
+                return cur
+            # at least one more K above: T is the highest one; between cur and T only K nodes
+            if not (cur.kinds & NOEQ):
+                raise PathAbort()
+            I.refine_kinds(cur, cur.kinds & NOEQ)
+            side = ["left", "right"][I.ps.choose(2, "walk-side")]
+            tk = K & (frozenset(BINARY) if side == "left" else NONLEAF) - {"EqualExpression"}
+            if not tk:
+                raise PathAbort()
+            t = self.new_input(tk, label="walktop")
+            old = gp if (gp is not None and gp.open) else None
+            g2 = Gap(self, t, side, cur, additive=additive_kind)
+            t.ghost["gap"] = g2
+            cur.ghost["above"] = g2
+            t.ghost["parent_not"] = sorted(K)
+            if old is not None:
+                old.lower = t
+                t.ghost["above"] = old
+            if self.top is cur:
+                self.top = t
+            return t
 
     # ------------------------------------------------------------------ clone (contract semantics)
     def mirror_of(self, I, sess, orig):
@@ -482,11 +582,17 @@ class ExprHeap:
         o, t = args
         if not isinstance(t, ClassVal):
             raise OutOfSubset("find_type with non-class")
+        # find_type is a pure function of the tree: same tree state, same answer
+        nwrites = sum(1 for w in I.ps.writes if isinstance(w[0], Obj) and w[1] in ("left", "right", "parent"))
+        mk = ("find_type", id(o), t.info.name, nwrites)
+        if mk in I.ps.memo:
+            return I.ps.memo[mk]
         n = I.ps.fresh(f"n_{t.info.name}_{o.oid}", "Int")
         I.ps.assume(n >= 0)
         hk = self.has_kind(I, o, t.info)
         I.ps.assume((n > 0) == hk)
-        return SymList(n, descr=f"find_type({o},{t.info.name})")
+        I.ps.memo[mk] = SymList(n, descr=f"find_type({o},{t.info.name})")
+        return I.ps.memo[mk]
 
     def has_kind(self, I, o: Obj, ci):
         """Ghost: does the current subtree of o contain a node of class ci (z3 Bool)."""
@@ -515,8 +621,11 @@ class ExprHeap:
             base = o.mirror[1] if o.mirror is not None else o
             parts.append(z3.Bool(f"below_has_{tag}_{base.oid}"))
         gp = o.ghost.get("gap")
-        if gp is not None and self.gap is gp:
-            parts.append(z3.Bool(f"gap_has_{tag}_{o.oid}"))
+        if gp is not None and gp.open and gp.side not in o.cur:
+            if gp.additive:
+                parts.append(z3.BoolVal(bool(yes & frozenset(["AddExpression"]))) if False else z3.Bool(f"gap_has_{tag}_{id(gp.ctx) % 100000}"))
+            else:
+                parts.append(z3.Bool(f"gap_has_{tag}_{o.oid}"))
             parts.append(self._has_kind(I, gp.lower, yes, tag))
         return z3.Or(parts)
 
@@ -534,15 +643,21 @@ class ExprHeap:
         if side in o.init:
             return o.init[side]
         gp = o.ghost.get("gap")
-        if gp is not None and self.gap is gp and gp.side == side:
+        if gp is not None and gp.open and gp.side == side:
             return gp
         key = f"ghost_{side}"
+        if o.mirror is not None and key not in o.ghost:
+            sess, orig = o.mirror
+            oc = self.complete(I, orig, side, True)
+            if isinstance(oc, Gap):
+                # not cached: the lower end of an open gap moves when the chain below it grows
+                return Gap(self, o, side, self.mirror_of(I, sess, oc.lower), like=oc)
         if key not in o.ghost:
             if o.mirror is not None:
                 sess, orig = o.mirror
                 oc = self.complete(I, orig, side, True)
                 if isinstance(oc, Gap):
-                    o.ghost[key] = oc
+                    return Gap(self, o, side, self.mirror_of(I, sess, oc.lower), like=oc)
                 elif oc is None:
                     o.ghost[key] = None
                 else:
@@ -607,7 +722,7 @@ class ExprHeap:
         """(val, def) of x in the pre-state; emits the defining axioms of materialised nodes."""
         if isinstance(x, Gap):
             lv, ld = self.pre(I, x.lower)
-            return x.ctx(lv), z3.And(ld, x.cdef(lv))
+            return x.den(lv, ld)
         if x is None:
             return None
         base = x
@@ -631,9 +746,7 @@ class ExprHeap:
                 continue
             done.add(id(o))
             g = o.ghost
-            mat = any(f in o.init for f in ("left", "right", "value", "identifier")) or (
-                g.get("gap") is not None and self.gap is g.get("gap")
-            )
+            mat = any(f in o.init for f in ("left", "right", "value", "identifier")) or self.is_gapped(o)
             if not mat and len(o.kinds & frozenset(LEAF)) != len(o.kinds):
                 continue  # opaque subtree: free val0/def0
             kinds = o.kinds
@@ -672,7 +785,7 @@ class ExprHeap:
             memo = {}
         if isinstance(x, Gap):
             lv, ld = self.post(I, x.lower, memo)
-            return x.ctx(lv), z3.And(ld, x.cdef(lv))
+            return x.den(lv, ld)
         if id(x) in memo:
             r = memo[id(x)]
             if r is None:
@@ -686,7 +799,7 @@ class ExprHeap:
     def _post(self, I, x: Obj, memo):
         g = x.ghost
         touched = any(f in x.cur for f in ("left", "right", "value", "identifier"))
-        gapped = g.get("gap") is not None and self.gap is g.get("gap")
+        gapped = self.is_gapped(x)
         if (x.lazy or x.mirror is not None) and not touched and not gapped:
             return g["val0"], g["def0"]
         kinds = x.kinds
@@ -731,6 +844,14 @@ class ExprHeap:
             df = z3.If(c, d, df)
         return val, df
 
+    def is_gapped(self, x: Obj) -> bool:
+        """Does x (or, for a clone, its original) have the open ancestor gap in one of its slots."""
+        base = x
+        while base.mirror is not None:
+            base = base.mirror[1]
+        gp = base.ghost.get("gap")
+        return gp is not None and gp.open
+
     def read_init_nofork(self, I, x, name):
         g = x.ghost
         if name == "value":
@@ -763,15 +884,23 @@ class ExprHeap:
         if x is None:
             return z3.BoolVal(False)
         if id(x) in memo:
-            return z3.BoolVal(False)
-        memo[id(x)] = True
+            r = memo[id(x)]
+            if r is None:
+                raise StructureError(f"cycle through {x}")
+            return r
+        memo[id(x)] = None
+        r = self._hasvar_node(I, x, v, init, memo)
+        memo[id(x)] = r
+        return r
+
+    def _hasvar_node(self, I, x, v, init, memo):
         g = x.ghost
         d = x.init if init else x.cur
         base = x
         while base.mirror is not None:
             base = base.mirror[1]
         touched = any(f in d for f in ("left", "right", "identifier"))
-        gapped = g.get("gap") is not None and self.gap is g.get("gap")
+        gapped = self.is_gapped(x)
         if (x.lazy or x.mirror is not None) and not touched and not gapped and not (x.kinds <= frozenset(LEAF)):
             return base.ghost["hasvar"](v)
         parts = []
